@@ -299,6 +299,51 @@ def config_job(args):
     return n, bad
 
 
+def secured_job(args):
+    """security ON with a common trust root: both stations hold tickets under the same AA and know each other's ticket"""
+    from mc.worlds import secured as SEC
+    from flexstack.security.security_profiles import SecurityProfile
+    bad, n = [], 0
+    pk = SEC.pki()
+    profs = {"CAM": (SecurityProfile.COOPERATIVE_AWARENESS_MESSAGE, 36), "VAM": (SecurityProfile.VRU_AWARENESS_MESSAGE, 638),
+             "DENM": (SecurityProfile.DECENTRALIZED_ENVIRONMENTAL_NOTIFICATION_MESSAGE, 37), "GEN": (SecurityProfile.NO_SECURITY, SEC.PSID_GEN)}
+    for (lat, lon) in args:
+        for kind in ("shb", "gbc", "gac", "guc"):
+            for pname, (prof, psid) in profs.items():
+                for payload in (b"", b"s", bytes(range(200))):
+                    n += 1
+                    rec = dict(security="on", transport=kind, profile=pname, length=len(payload), hemisphere=("S" if lat < 0 else "N") + ("W" if lon < 0 else "E"))
+                    try:
+                        net = SEC.SecNet()
+                        a = net.add_secured("A", MID["A"], SEC.make_stack(own="AT1", known_ats=("AT2",), p=pk), lat=lat, lon=lon, itsGnDefaultHopLimit=3)
+                        b = net.add_secured("B", MID["B"], SEC.make_stack(own="AT2", known_ats=("AT1",), p=pk), lat=lat + 0.0003, lon=lon, itsGnDefaultHopLimit=3)
+                        net.connect_all()
+                        net.call(b.gn.gn_data_request_beacon)
+                        net.quiesce()
+                        bpv = b.gn.ego_position_vector
+                        area = S.Area(latitude=bpv.latitude, longitude=bpv.longitude, a=200, b=150, angle=0)
+                        req = BTPDataRequest(btp_type=S.CommonNH.BTP_B, destination_port=2001, destination_port_info=7,
+                                             gn_packet_transport_type=ptt_of(kind), gn_area=area, gn_destination_address=b.addr, data=payload,
+                                             length=len(payload), security_profile=prof, its_aid=psid, gn_max_hop_limit=3)
+                        net.call(a.btp.btp_data_request, req)
+                        net.quiesce()
+                    except Exception as e:  # noqa: BLE001
+                        bad.append(dict(kind="secured_exception", exc=type(e).__name__, **rec))
+                        continue
+                    g = summarize(b.btp_indications)
+                    if summarize(a.btp_indications):
+                        bad.append(dict(kind="delivered_to_sender", **rec))
+                    if len(g) != 1:
+                        bad.append(dict(kind="secured_delivery_count", got=len(g), expected=1, **rec))
+                    elif g[0]["data"] != payload or g[0]["port"] != 2001 or g[0]["info"] != 7 or g[0]["so"] != MID["A"]:
+                        bad.append(dict(kind="secured_payload_or_port_mismatch", **rec))
+                    # whatever reaches the ether from A must be a secured packet (basic header NH = 2)
+                    for s_, f in net.sent:
+                        if s_ == "A" and len(g) == 1 and (f[0] & 0x0F) != 2:
+                            bad.append(dict(kind="delivered_although_unsecured", **rec))
+    return n, bad
+
+
 def _run(j):
     return j[0].__name__, j[0](j[1])
 
@@ -350,6 +395,9 @@ def run(ctx):
     places = [(la, lo, dla, dlo, sh, al) for la in lats for lo in lons for (dla, dlo) in offs for sh, al in ((0, "SIMPLE"), (1, "CBF"), (2, "SIMPLE"))]
     for i in range(0, len(places), 40):
         jobs.append((config_job, ("place", places[i:i + 40])))
+    jobs.append((secured_job, [(41.0, 2.0)]))
+    jobs.append((secured_job, [(-33.8688, 151.2093)]))
+    jobs.append((secured_job, [(40.7128, -74.006)]))
     evals = 0
     per = {}
     with mp.Pool(16) as pool:
@@ -370,7 +418,7 @@ def run(ctx):
                      "ports. Plus complete two-station sweeps over ports x BTP-A/B, payload bytes, lengths, traffic classes, hop limits "
                      "and a placement lattice over all hemispheres x shapes x SIMPLE/CBF."))
     ctx.assumptions += ["order is judged per transport kind (a unicast request parked for a location lookup may be overtaken by a later broadcast)",
-                        "security ON variant: see DESIGN.md (secured end-to-end for non-CAM/DENM profiles is a listed finding)"]
+                        "security ON: both stations know each other's ticket (certificate learning itself is C05's subject)"]
 
 
 def replay(path):
